@@ -630,6 +630,9 @@ def ground_truth(case, sites):
 # may-dependence closure (upper bound)
 # --------------------------------------------------------------------------------------------------
 
+OUT_OBJ = ("h", "out", "*")      # the external object `out` of the field-write sink sites
+
+
 class MayDep:
     """Flow-insensitive, context-insensitive value dependence over the mini-AST.
     Nodes: ('v', scope, name) variables; ('h', alloc, field) heap cells ('*' = any element of a container);
@@ -658,7 +661,10 @@ class MayDep:
         self.module_vars = set()
         self.collect_module_vars(case.body)
         self.global_read_edges = []   # (func, src node, dst node)
+        self.copy_rev = {}            # b -> {a}: edges a -> b that pass the SAME object on (no new value is computed)
+        self.param_args = []          # (param source site, node of the actual argument variable)
         self.build()
+        self.finalize_param_sources()
 
     def collect_module_vars(self, b):
         for s in b:
@@ -685,6 +691,25 @@ class MayDep:
                 return ("v", scope, name)
         return ("v", "<m>", name)
 
+    def writes_out(self, f, seen=None):
+        """does f (or a function it calls) execute a field write on the external object `out`?"""
+        seen = seen or set()
+        if f.name in seen:
+            return False
+        seen.add(f.name)
+        def walk(b):
+            for st in b:
+                if st[0] == "sink_field":
+                    return True
+                if st[0] == "call" and st[2] in self.funcs and self.writes_out(self.funcs[st[2]], seen):
+                    return True
+                if st[0] == "if" and (walk(st[1]) or walk(st[2])):
+                    return True
+                if st[0] == "while" and walk(st[1]):
+                    return True
+            return False
+        return walk(f.body)
+
     def locals_of(self, f):
         if not hasattr(f, "_locals"):
             loc = {p for p, _ in f.params}
@@ -707,10 +732,29 @@ class MayDep:
             f._locals = loc
         return f._locals
 
-    def edge(self, a, b):
+    def edge(self, a, b, copy=True):
         self.edges.setdefault(a, set()).add(b)
+        if copy:
+            self.copy_rev.setdefault(b, set()).add(a)
         if self.symmetric:
             self.edges.setdefault(b, set()).add(a)
+
+    def finalize_param_sources(self):
+        """A parameter source marks the VALUE the parameter receives.  Assignments, parameter passing, returns and
+        stores / loads of fields and elements pass the same object on, so every variable or cell from which that
+        object reaches the parameter by such copies holds the source value as well (fn1(x, x, x) / def fn1(p0, p1,
+        p2): sink0(p2); fn0(p0) / def fn0(preq0): p2, p0, x and preq0 are one object).  `+` computes a new value and
+        is no copy."""
+        for site, arg in self.param_args:
+            seen, todo = {arg}, [arg]
+            while todo:
+                u = todo.pop()
+                for v in self.copy_rev.get(u, ()):
+                    if v not in seen:
+                        seen.add(v)
+                        todo.append(v)
+            for n in seen:
+                self.src_of.setdefault(n, set()).add(site)
 
     def build(self):
         self.allocs = 0
@@ -745,17 +789,18 @@ class MayDep:
     def atom_node(self, scope, a):
         return self.var(scope, a[1]) if a[0] == "var" else None
 
-    def dep(self, scope, a, dst, in_func_read=True):
+    def dep(self, scope, a, dst, in_func_read=True, copy=True):
         n = self.atom_node(scope, a)
         if n is None:
             return
         if scope != "<m>" and n[1] == "<m>":
             self.global_read_edges.append((scope, n, dst))
-        self.edge(n, dst)
+        self.edge(n, dst, copy)
 
     def apply_all(self):
         self.sink_args = []
         self.global_read_edges = []
+        self.param_args = []
         for fi, f in enumerate(self.case.funcs):
             if f.kind == "handler":
                 self.src_of.setdefault(self.var(f.name, f.params[0][0]), set()).add(self.sites[("param", fi)])
@@ -768,7 +813,8 @@ class MayDep:
             elif k == "gassign":
                 self.dep(scope, s[2], ("v", "<m>", s[1]))
             elif k == "add":
-                self.dep(scope, s[2], self.var(scope, s[1])); self.dep(scope, s[3], self.var(scope, s[1]))
+                self.dep(scope, s[2], self.var(scope, s[1]), copy=False)
+                self.dep(scope, s[3], self.var(scope, s[1]), copy=False)
             elif k in ("src_call", "src_obj"):
                 self.src_of.setdefault(self.var(scope, s[1]), set()).add(self.sites[p])
             elif k == "src_field":
@@ -778,8 +824,15 @@ class MayDep:
                 self.edge(cell, self.var(scope, s[1]))
             elif k == "sink_call":
                 self.sink_args.append((self.sites[p], self.atom_node(scope, s[2]), s[3] == 0))
-            elif k in ("sink_obj", "sink_field"):
+            elif k == "sink_obj":
                 self.sink_args.append((self.sites[p], self.atom_node(scope, s[1]), True))
+            elif k == "sink_field":
+                # `out.secret_field = v` with target \%target: EVERY used symbol counts (C10_rule_kinds_target_position),
+                # i.e. the written value and the receiver object `out`, which flow-insensitively holds whatever any
+                # statement stores into it
+                self.sink_args.append((self.sites[p], self.atom_node(scope, s[1]), True))
+                self.dep(scope, s[1], OUT_OBJ)
+                self.sink_args.append((self.sites[p], OUT_OBJ, True))
             elif k == "sink_record":
                 self.sink_args.append((self.sites[p], self.atom_node(scope, s[2]), True))
             elif k == "call":
@@ -787,14 +840,18 @@ class MayDep:
                 for (pn, pt), a in zip(f.params, s[3]):
                     self.dep(scope, a, ("v", f.name, pn))
                     if f.kind == "handler" and a[0] == "var":
-                        # a parameter source taints the incoming VALUE, which the caller's variable holds too
+                        # a parameter source taints the incoming VALUE, which the caller's variables hold too
                         fi = self.case.funcs.index(f)
-                        self.src_of.setdefault(self.var(scope, a[1]), set()).add(self.sites[("param", fi)])
+                        self.param_args.append((self.sites[("param", fi)], self.var(scope, a[1])))
                     if self.call_propagates and s[1]:
-                        self.dep(scope, a, self.var(scope, s[1]))
+                        self.dep(scope, a, self.var(scope, s[1]), copy=False)
+                    if self.call_propagates and self.writes_out(f):
+                        # ... including the objects the callee writes: a hot call statement tags every symbol it
+                        # defines, also the implicitly defined ones that hold the states of side-effected objects
+                        self.dep(scope, a, OUT_OBJ, copy=False)
                     if self.call_propagates and f.ret is not None:
                         # ... context-insensitively: the callee's returned abstract value is shared by all call sites
-                        self.dep(scope, a, ("ret", f.name))
+                        self.dep(scope, a, ("ret", f.name), copy=False)
                 if s[1]:
                     self.edge(("ret", f.name), self.var(scope, s[1]))
             elif k == "new":
@@ -973,6 +1030,75 @@ def alias_source_flows(case, rend, md):
             for (site, arg, designated) in md.sink_args:
                 if designated and arg is not None and arg in reach:
                     out.add((rend.stmt_lines[p], site))
+    return out
+
+
+def assigns_inside(st, x):
+    """is variable x assigned anywhere inside statement st (including nested blocks)?"""
+    if assigned_var(st) == x:
+        return True
+    if st[0] == "if":
+        return any(assigns_inside(t, x) for t in st[1]) or any(assigns_inside(t, x) for t in st[2])
+    if st[0] == "while":
+        return any(assigns_inside(t, x) for t in st[1])
+    return False
+
+
+def uses_inside(st, path, x):
+    """AST paths of the simple statements inside st (including st itself) that read x directly"""
+    out = []
+    if st[0] == "if":
+        for br in (1, 2):
+            for i, t in enumerate(st[br]):
+                out += uses_inside(t, path + (br, i), x)
+    elif st[0] == "while":
+        for i, t in enumerate(st[1]):
+            out += uses_inside(t, path + (1, i), x)
+    elif x in direct_uses(st):
+        out.append(path)
+    return out
+
+
+def must_reach_pairs(case):
+    """(scope, x, path of a definition D of x, path of a use U of x) such that D reaches U on EVERY execution that gets
+    to U: U follows D in D's own block — directly, or nested in a compound statement that follows D there — and no
+    statement between D and U, nor any statement of a compound statement that contains U or lies between them,
+    assigns x (for a loop this covers all iterations).  Returns of functions count as uses (("ret", fi))."""
+    out = []
+    def block(body, prefix, scope, fi, top):
+        for i, st in enumerate(body):
+            if st[0] == "if":
+                block(st[1], prefix + (i, 1), scope, fi, False)
+                block(st[2], prefix + (i, 2), scope, fi, False)
+                continue
+            if st[0] == "while":
+                block(st[1], prefix + (i, 1), scope, fi, False)
+                continue
+            x = assigned_var(st)
+            if x is None:
+                continue
+            killed = False
+            for j in range(i + 1, len(body)):
+                t = body[j]
+                if t[0] in ("if", "while"):
+                    if assigns_inside(t, x):
+                        killed = True
+                        break
+                    for u in uses_inside(t, prefix + (j,), x):
+                        out.append((scope, x, prefix + (i,), u))
+                else:
+                    if x in direct_uses(t):
+                        out.append((scope, x, prefix + (i,), prefix + (j,)))
+                    if assigned_var(t) == x:
+                        killed = True
+                        break
+            if not killed and top and fi is not None:
+                f = case.funcs[fi]
+                if f.ret is not None and f.ret[0] == "var" and f.ret[1] == x:
+                    out.append((scope, x, prefix + (i,), ("ret", fi)))
+    block(case.body, ("m",), "<m>", None, True)
+    for fi, f in enumerate(case.funcs):
+        block(f.body, ("f", fi), f.name, fi, True)
     return out
 
 
